@@ -283,16 +283,24 @@ func chooseFwd(l *proxy.Label) proxy.Forwarder {
 
 var addrRe = regexp.MustCompile(`127\.0\.0\.1:\d+`)
 
-type addrNames struct{ m map[string]string }
+// addrNames maps the local address of each CURRENT session (by slot: direct, caller, forward)
+// to its role; addresses of sessions that are gone are not remembered (ports are reused).
+type addrNames struct{ cur map[string]string }
+
+var roleOf = map[string]string{"direct": "CALLER", "caller": "CALLER", "forward": "PROXY"}
+
+func (a *addrNames) set(slot, addr string) { a.cur[slot] = addr }
 
 func (a *addrNames) norm(s string) string {
-	for k, v := range a.m {
-		s = strings.Replace(s, k, v, -1)
+	for _, slot := range []string{"direct", "caller", "forward"} {
+		if addr := a.cur[slot]; addr != "" {
+			s = strings.Replace(s, addr, roleOf[slot], -1)
+		}
 	}
 	return addrRe.ReplaceAllString(s, "ADDR")
 }
 
-var names = &addrNames{m: map[string]string{}}
+var names = &addrNames{cur: map[string]string{}}
 
 func unq(s string) string {
 	var o []byte
@@ -493,8 +501,8 @@ func newWorld() *world {
 	Must(err)
 	w.dsess = w.dial(w.clPeer, w.beLis.Addr)
 	w.csess = w.dial(w.clPeer, w.pxLis.Addr)
-	names.m[w.dsess.LocalAddr().String()] = "CALLER"
-	names.m[w.csess.LocalAddr().String()] = "CALLER"
+	names.set("direct", w.dsess.LocalAddr().String())
+	names.set("caller", w.csess.LocalAddr().String())
 	w.newForward()
 	return w
 }
@@ -508,18 +516,14 @@ func (w *world) dial(p erpc.Peer, addr string) erpc.Session {
 }
 
 func (w *world) newForward() {
-	if w.fsess != nil {
-		delete(names.m, w.fsess.LocalAddr().String())
-	}
 	w.fsess = w.dial(w.fwPeer, w.beLis.Addr)
-	names.m[w.fsess.LocalAddr().String()] = "PROXY"
+	names.set("forward", w.fsess.LocalAddr().String())
 	setFwd(w.fsess)
 }
 
 func (w *world) newCaller() {
-	delete(names.m, w.csess.LocalAddr().String())
 	w.csess = w.dial(w.clPeer, w.pxLis.Addr)
-	names.m[w.csess.LocalAddr().String()] = "CALLER"
+	names.set("caller", w.csess.LocalAddr().String())
 }
 
 // proxySessionFor returns the proxy-side session whose remote address is the caller's local one.
@@ -680,9 +684,8 @@ func (w *world) runProxied(c *reqCase) *obs {
 	// restore a healthy forward path for the next case
 	if c.fail != "none" {
 		if c.fail == "during" || c.fail == "closed-remote" {
-			delete(names.m, w.dsess.LocalAddr().String())
 			w.dsess = w.dial(w.clPeer, w.beLis.Addr) // KillConns cut the direct session too
-			names.m[w.dsess.LocalAddr().String()] = "CALLER"
+			names.set("direct", w.dsess.LocalAddr().String())
 		}
 		w.newForward()
 	}
